@@ -894,9 +894,10 @@ Qed.
 
 Lemma keeps_handle_offer e a : keeps (handle_offer e a).
 Proof.
-  intros X w Hg. unfold handle_offer. destruct (negb (is_watching e w)); [exact Hg|].
+  intros X w Hg. unfold handle_offer.
   destruct (from_offer_entry e) as [s|]; [|exact Hg].
-  destruct (e_ttl e =? 0); [apply keeps_store_stop|apply keeps_store_refresh]; exact Hg.
+  destruct (e_ttl e =? 0); [apply keeps_store_stop; exact Hg|].
+  destruct (negb (is_watching e w)); [exact Hg|apply keeps_store_refresh; exact Hg].
 Qed.
 
 Lemma keeps_discovery_start : keeps discovery_start.
